@@ -378,48 +378,56 @@ Section Inline.
     map (fun c => c ++ [CTag t (acc_certain a)]) cs_new ++
     flat_map (fun tc => map (fun c => c ++ CTag t acc_uncertain :: tc) cs_new) tcs.
 
-  (* fuel = nesting depth of tag definitions still allowed; None = out of fuel *)
-  Fixpoint inline_conj (fuel : nat) : conj -> dnf -> option dnf :=
-    fix go (cs : conj) (cs_new : dnf) : option dnf :=
+  (* [rec] inlines a tag definition (td.Conditions.InlineTagFilters(tags), one nesting level
+     deeper); None = out of fuel *)
+  Section OneLevel.
+    Variable rec : dnf -> option dnf.
+
+    Fixpoint inline_conj_with (cs : conj) (cs_new : dnf) : option dnf :=
       match cs with
       | [] => Some cs_new
-      | CAtom x :: rest => go rest (map (fun c => c ++ [CAtom x]) cs_new)
+      | CAtom x :: rest => inline_conj_with rest (map (fun c => c ++ [CAtom x]) cs_new)
       | CTag t a :: rest =>
-          let keep := go rest (map (fun c => c ++ [CTag t a]) cs_new) in
+          let keep := inline_conj_with rest (map (fun c => c ++ [CTag t a]) cs_new) in
           if negb (acc_um a || acc_uf a) || (acc_um a && acc_uf a) then keep
           else match tags t with
                | None => keep
                | Some td =>
                    if negb (td_any_uncertain td) then keep
-                   else match fuel with
-                        | O => None
-                        | S fuel' =>
-                            let inl := fix inl (d : dnf) : option dnf :=
-                                         match d with
-                                         | [] => Some []
-                                         | c :: d' =>
-                                             match inline_conj fuel' c [[]], inl d' with
-                                             | Some x, Some y => Some (x ++ y)
-                                             | _, _ => None
-                                             end
-                                         end in
-                            match inl (td_conditions td) with
-                            | None => None
-                            | Some tcs =>
-                                let tcs' := if acc_um a then tcs else invert tcs in
-                                go rest (inline_step t a tcs' cs_new)
-                            end
+                   else match rec (td_conditions td) with
+                        | None => None
+                        | Some tcs =>
+                            let tcs' := if acc_um a then tcs else invert tcs in
+                            inline_conj_with rest (inline_step t a tcs' cs_new)
                         end
                end
       end.
 
-  Fixpoint inline_dnf (fuel : nat) (d : dnf) : option dnf :=
-    match d with
-    | [] => Some []
-    | c :: d' =>
-        match inline_conj fuel c [[]], inline_dnf fuel d' with
-        | Some x, Some y => Some (x ++ y)
-        | _, _ => None
-        end
+    Fixpoint inline_dnf_with (d : dnf) : option dnf :=
+      match d with
+      | [] => Some []
+      | c :: d' =>
+          match inline_conj_with c [[]], inline_dnf_with d' with
+          | Some x, Some y => Some (x ++ y)
+          | _, _ => None
+          end
+      end.
+  End OneLevel.
+
+  (* fuel = nesting depth of tag definitions that may still be inlined *)
+  Fixpoint inline_dnf (fuel : nat) : dnf -> option dnf :=
+    match fuel with
+    | O => inline_dnf_with (fun _ => None)
+    | S fuel' => inline_dnf_with (inline_dnf fuel')
     end.
 End Inline.
+Arguments CAtom {atom tagname} x.
+Arguments CTag {atom tagname} t a.
+Arguments td_matches {atom tagname} t.
+Arguments td_uncertain {atom tagname} t.
+Arguments td_any_uncertain {atom tagname} t.
+Arguments td_conditions {atom tagname} t.
+Arguments inline_step {atom tagname} t a tcs cs_new.
+Arguments inline_conj_with {atom tagname} tags invert rec cs cs_new.
+Arguments inline_dnf_with {atom tagname} tags invert rec d.
+Arguments inline_dnf {atom tagname} tags invert fuel d.
